@@ -317,6 +317,10 @@ func c08R3(a *A, r *Roles) {
 					prod, isCall := src.(*ssa.Call)
 					key := fmt.Sprintf("fresh-per-iteration@%s#%d", name, n)
 					okIt := isCall && inCycle(prod.Block()) && prod.Block().Dominates(c.Block())
+					// ... or allocated in place (a composite literal) in the same iteration
+					if al2, isAlloc := src.(*ssa.Alloc); isAlloc && al2.Heap && inCycle(al2.Block()) && al2.Block().Dominates(c.Block()) {
+						okIt = true
+					}
 					a.check(okIt, rule, key, w.posOf(c), "appended object is produced in the same loop iteration",
 						"an object appended on every iteration is not produced in that iteration ("+describe(src)+"): rows/columns share one object")
 				}
